@@ -5,6 +5,7 @@ CONSTANTS
   Alphabet = {45, 48, 255}
   Kinds = {"commit", "tag", "tree", "blob"}
   EmptyLine = 0
+  Part = 0
   Edits = TRUE
 INVARIANT WellFormed
 INVARIANT TreeSorted
